@@ -100,7 +100,12 @@ def rule_order_source(ctx, crate, rule="R-MULTI-ORDER-SOURCE"):
     if not b:
         return
     sites = members_index_sites(b)
-    ctx.floor(rule, len(sites), 2, cfg, "members[..] index sites in MultiState::draw")
+    # (index sites inside closures of draw — `take_while(|&i| self.members[i].is_zombie)` — count as sites; their index is the
+    # closure's item, whose source R-MULTI-HEAD-REAP checks)
+    in_closures = sum(len([c for c in cb.calls(r"std::ops::Index::index", r"std::ops::IndexMut::index_mut") if cb.slice_args(c, [0]).has_field("members", MS) or
+                           any(a[0] == "field" and a[1] == "closure" for a in cb.slice_args(c, [0]).atoms)]) for cb in crate.closures_of(b.name))
+    ctx.floor(rule, len(sites) + in_closures, 2, cfg, "members[..] index sites in MultiState::draw")
+    ctx.floor(rule, len(sites), 1, cfg, "members[..] index sites in the body of MultiState::draw (frame composition)")
     for k, c in enumerate(sites):
         sl = b.slice_args(c, [1])
         from_ordering = sl.has_field("ordering", MS)
@@ -317,6 +322,7 @@ def rule_head_only_reap(ctx, crate, rule="R-MULTI-HEAD-REAP"):
                 zsw.append((sb, zero[0], t["otherwise"]))
     # iterator form: `ordering.iter().take_while(|&&i| self.members[i].is_zombie)` — the predicate closure returns the flag
     tw_next = set()
+    tw_collect = []
     for tw in b.calls(r"std::iter::Iterator::take_while"):
         cl = None
         for a in tw.args[1:]:
@@ -338,8 +344,16 @@ def rule_head_only_reap(ctx, crate, rule="R-MULTI-HEAD-REAP"):
             for nx in b.calls(r"std::iter::Iterator::next"):
                 if "TakeWhile" in (nx.callee.get("self_ty") or "") + " ".join(nx.callee.get("targs") or []):
                     tw_next.add(nx.bb)
-    ctx.check((bool(zsw) or bool(tw_next)) and bool(pushes), rule, "reap-loop", b.name, K.fn_loc(b), "the reap loop tests is_zombie and records indices",
+            # ... or collected as it is: `ordering.iter().copied().take_while(is_zombie).collect()`
+            for col in b.calls(r"std::iter::Iterator::collect"):
+                csl = b.slice_args(col, [0])
+                if any(k.bb == tw.bb for k in csl.calls) and not csl.calls_matching(r"std::iter::Iterator::(rev|skip|skip_while|step_by|filter|filter_map|chain|map|flat_map|enumerate|zip)"):
+                    tw_collect.append(col)
+    ctx.check((bool(zsw) or bool(tw_next)) and bool(pushes) or bool(tw_collect), rule, "reap-loop", b.name, K.fn_loc(b), "the reap loop tests is_zombie and records indices",
               "no reap loop testing is_zombie was found", cfg)
+    for col in tw_collect:
+        ctx.ok(rule, "reap-only-zombies", b.name, col.loc(), "the reap list is take_while(is_zombie) over the ordering, collected unchanged", cfg)
+        ctx.ok(rule, "stop-at-first-live", b.name, col.loc(), "take_while stops at the first non-zombie", cfg)
     for c in pushes:
         if tw_next and any(c.bb in b.reach_after(nb) and nb in b.reach_after(c.bb) for nb in tw_next):
             ctx.ok(rule, "reap-only-zombies", b.name, c.loc(), "indices come from take_while(is_zombie) over the ordering", cfg)
